@@ -162,6 +162,19 @@ func (changes *Changes) GetDSC() (*DSC, error) {
 	return nil, fmt.Errorf("No .dsc file in .changes")
 }
 
+// Refuse file names that would take Copy, Move or Remove out of the
+// directory of the control file: the names listed in the Files field are
+// plain file names, never paths.
+func (changes *Changes) checkFilenames() error {
+	for _, file := range changes.Files {
+		name := file.Filename
+		if name == "." || name == ".." || filepath.Base(name) != name {
+			return fmt.Errorf("Refusing to touch '%s': not a plain file name", name)
+		}
+	}
+	return nil
+}
+
 // Copy the .changes file and all referenced files to the directory
 // listed by the dest argument. This function will error out if the dest
 // argument is not a directory, or if there is an IO operation in transfer.
@@ -170,6 +183,9 @@ func (changes *Changes) GetDSC() (*DSC, error) {
 // be used to move something into an incoming directory with an inotify
 // hook. This will also mutate Changes.Filename to match the new location.
 func (changes *Changes) Copy(dest string) error {
+	if err := changes.checkFilenames(); err != nil {
+		return err
+	}
 	if file, err := os.Stat(dest); err == nil && !file.IsDir() {
 		return fmt.Errorf("Attempting to move .changes to a non-directory")
 	}
@@ -196,6 +212,9 @@ func (changes *Changes) Copy(dest string) error {
 // be used to move something into an incoming directory with an inotify
 // hook. This will also mutate Changes.Filename to match the new location.
 func (changes *Changes) Move(dest string) error {
+	if err := changes.checkFilenames(); err != nil {
+		return err
+	}
 	if file, err := os.Stat(dest); err == nil && !file.IsDir() {
 		return fmt.Errorf("Attempting to move .changes to a non-directory")
 	}
@@ -218,6 +237,9 @@ func (changes *Changes) Move(dest string) error {
 // always remove the .changes last, in the event there are filesystem i/o errors
 // on removing associated files.
 func (changes *Changes) Remove() error {
+	if err := changes.checkFilenames(); err != nil {
+		return err
+	}
 	for _, file := range changes.AbsFiles() {
 		err := os.Remove(file.Filename)
 		if err != nil {
